@@ -290,6 +290,35 @@ func (g *gen) progRandomBytes() ([]byte, []byte, []byte) {
 	return code, r.Bytes(r.Intn(40)), g.auxProg()
 }
 
+// straight-line programs over operations that touch neither memory (beyond word 0) nor other
+// frames: safe to run with astronomically large gas (2^63, 2^64-1), where a loop or a priced
+// 100 GiB expansion would never finish
+func (g *gen) progPureSeq() ([]byte, []byte, []byte) {
+	r := g.r
+	a := &asm{}
+	depth := 0
+	n := 3 + r.Intn(30)
+	for i := 0; i < n; i++ {
+		op := g.ops[r.Intn(len(g.ops))]
+		info := g.table[op]
+		if info.MemorySize != "" || op >= 0xf0 || info.Halts || info.Reverts || op == 0x56 || op == 0x57 || op == 0x20 || op == 0x0a {
+			continue
+		}
+		for depth < info.MinStack {
+			a.push(lattice(r))
+			depth++
+		}
+		a.op(op)
+		if op >= 0x60 && op <= 0x7f {
+			a.op(r.Bytes(int(op) - 0x5f)...)
+		}
+		depth = depth - info.MinStack + (1024 + info.MinStack - info.MaxStack)
+	}
+	a.op(0x5a)
+	a.storeTopAndReturn()
+	return a.bytes(), r.Bytes(r.Intn(40)), nil
+}
+
 // loops that end by running out of gas or by a counter
 func (g *gen) progLoop() ([]byte, []byte, []byte) {
 	r := g.r
@@ -633,9 +662,14 @@ func (g *gen) progAuthLiveFor(invoker common.Address) ([]byte, []byte, []byte) {
 	r := g.r
 	a := &asm{}
 	var key []byte
-	for {
+	wantZeroAddr := r.Chance(1, 5) // authority address with a leading zero byte (popAddress pads it)
+	for tries := 0; ; tries++ {
 		key = r.Bytes(32)
-		if _, err := crypto.ToECDSA(key); err == nil {
+		k, err := crypto.ToECDSA(key)
+		if err != nil {
+			continue
+		}
+		if !wantZeroAddr || tries > 3000 || crypto.PubkeyToAddress(k.PublicKey)[0] == 0 {
 			break
 		}
 	}
@@ -645,6 +679,7 @@ func (g *gen) progAuthLiveFor(invoker common.Address) ([]byte, []byte, []byte) {
 	if r.Chance(1, 4) {
 		commit = make([]byte, 32)
 	}
+	wantZeroSig := r.Chance(1, 4) // r or s with a leading zero byte (1/128 per signature)
 	msg := make([]byte, 97)
 	msg[0] = 0x03
 	cid := common.GetChainId(blockNumber).Bytes()
@@ -659,6 +694,19 @@ func (g *gen) progAuthLiveFor(invoker common.Address) ([]byte, []byte, []byte) {
 	sig, err := crypto.Sign(signed, prv)
 	if err != nil {
 		panic(err)
+	}
+	for tries := 0; wantZeroSig && tries < 3000 && sig[0] != 0 && sig[32] != 0; tries++ {
+		commit = r.Bytes(32)
+		copy(msg[65:], commit)
+		hash = crypto.Keccak256(msg)
+		signed = hash
+		sig, _ = crypto.Sign(signed, prv)
+	}
+	if sig[0] == 0 || sig[32] == 0 {
+		leadingZeroSigs++
+	}
+	if authority[0] == 0 {
+		leadingZeroAddrs++
 	}
 	v := uint64(sig[64])
 	if r.Chance(1, 2) {
@@ -942,6 +990,7 @@ type spec struct {
 	value             *big.Int
 	code, input, aux  []byte
 	aux2              []byte
+	nonce             uint64
 	to                common.Address
 }
 
@@ -997,6 +1046,9 @@ func loadCorpus(dir string) (specs []spec, raw [][2]string) {
 // ---- main
 
 var curFile string
+var leadingZeroSigs, leadingZeroAddrs int
+
+func hxGuard(f func() string) string { return hx.Guard(f) }
 
 func emitRun(out *hx.Out, head string, run func() string, stats map[string]int) string {
 	if curFile != "" {
@@ -1010,11 +1062,22 @@ func emitRun(out *hx.Out, head string, run func() string, stats map[string]int) 
 	tape := cur.tape
 	out.Emit(head+tapeTok(tape), res)
 	stats["tape_entries"] += len(tape)
+	if obs != nil {
+		if obs.maxDepth >= 1025 {
+			stats["depth1025"]++
+		}
+		if obs.maxStack >= 1024 {
+			stats["stack1024"]++
+		}
+		stats["static_write_faults"] += obs.staticWriteFaults
+		stats["live_authcalls"] += obs.authcallFrames
+	}
 	return res
 }
 
 func doSpec(out *hx.Out, s spec, stats map[string]int) string {
 	worldAux2 = s.aux2
+	worldNonce = s.nonce
 	if s.kind == "K" {
 		head, run := runCreate(s.cfg, s.gas, s.value, s.code, s.aux)
 		return emitRun(out, head, run, stats)
@@ -1062,6 +1125,7 @@ func main() {
 	}
 
 	n := hx.ArgInt(a, "n", 1500)
+	var kept []spec
 	for i := 0; i < n; i++ {
 		cfg := pickCfg(r)
 		gas := pickGas(r)
@@ -1071,7 +1135,12 @@ func main() {
 		}
 		var code, input, aux, aux2 []byte
 		kind := ""
-		switch k := r.Intn(22); {
+		var nonce uint64
+		switch k := r.Intn(23); {
+		case k == 22:
+			kind = "pure-huge-gas"
+			code, input, aux = g.progPureSeq()
+			gas = []uint64{1 << 63, ^uint64(0), 1<<63 - 1, 1 << 32}[r.Intn(4)]
 		case k >= 20:
 			kind = "nested-static"
 			code, input, aux, aux2 = g.progNestedStatic()
@@ -1105,6 +1174,9 @@ func main() {
 		case k < 18:
 			kind = "create"
 			code, input, aux = g.progCreate()
+			if r.Chance(1, 2) {
+				nonce = []uint64{1, 127, 128, 255, 256, 65535, 65536, 1 << 32, 1<<64 - 2}[r.Intn(9)]
+			}
 		default:
 			kind = "custom"
 			code, input, aux = g.progCustom()
@@ -1117,7 +1189,17 @@ func main() {
 		if r.Chance(1, 12) {
 			// the program as init code of a top-level create
 			genKinds["top-create"]++
-			doSpec(out, spec{kind: "K", cfg: cfg, gas: gas, value: value, code: code, aux: aux}, stats)
+			if gas > 1<<40 {
+				gas = 3000000
+			}
+			if r.Chance(1, 3) {
+				nonce = []uint64{1, 127, 128, 255, 256, 65535, 1<<64 - 2}[r.Intn(7)]
+			}
+			sp := spec{kind: "K", cfg: cfg, gas: gas, value: value, code: code, aux: aux, nonce: nonce}
+			doSpec(out, sp, stats)
+			if len(kept) < 60 && kind != "pure-huge-gas" {
+				kept = append(kept, sp)
+			}
 			continue
 		}
 		to := target
@@ -1127,8 +1209,19 @@ func main() {
 			to = precompileAddr(1 + r.Intn(18))
 			input = g.precompileInput(int(to[19]))
 		}
-		doSpec(out, spec{kind: "C", cfg: cfg, gas: gas, value: value, code: code, input: input, aux: aux, aux2: aux2, to: to}, stats)
+		sp := spec{kind: "C", cfg: cfg, gas: gas, value: value, code: code, input: input, aux: aux, aux2: aux2, to: to, nonce: nonce}
+		doSpec(out, sp, stats)
+		if (len(kept) < 60 || r.Chance(1, 40)) && kind != "pure-huge-gas" && gas <= 10000000 {
+			kept = append(kept, sp)
+		}
 	}
+	// history phase (hardening class 3b/6): the same programs again, after everything else ran in
+	// this process (pools, caches, code-hash keyed analysis): the pure Lean model answers as before
+	for _, sp := range kept {
+		doSpec(out, sp, stats)
+		genKinds["repeat"]++
+	}
+	concMismatch := concurrencyPhase(kept, hx.ArgInt(a, "conc", 8))
 	// deep recursion to the depth limit (needs ~2^62 gas because of the 63/64 rule)
 	deep := hx.ArgInt(a, "deep", 1)
 	for i := 0; i < deep; i++ {
@@ -1176,6 +1269,60 @@ func main() {
 	}
 	sort.Strings(kinds)
 	js := out.StatsJSON()
-	js = js[:len(js)-1] + fmt.Sprintf(",\"generators\":{%s},\"tape_entries\":%d}", strings.Join(kinds, ","), stats["tape_entries"])
+	var rv []string
+	for _, v := range retentionViol {
+		if len(v) > 300 {
+			v = v[:300]
+		}
+		rv = append(rv, strconv.Quote(v))
+	}
+	var cm []string
+	for _, v := range concMismatch {
+		cm = append(cm, strconv.Quote(v))
+	}
+	js = js[:len(js)-1] + fmt.Sprintf(",\"generators\":{%s},\"tape_entries\":%d,\"coverage\":{\"live_authcalls\":%d,\"static_write_faults\":%d,\"frames_at_depth_1025\":%d,\"stack_1024_reached\":%d,\"leading_zero_sigs\":%d,\"leading_zero_authorities\":%d,\"concurrent_runs\":%d},\"retention_violations\":[%s],\"concurrency_mismatches\":[%s]}",
+		strings.Join(kinds, ","), stats["tape_entries"], stats["live_authcalls"], stats["static_write_faults"], stats["depth1025"], stats["stack1024"], leadingZeroSigs, leadingZeroAddrs, concRuns, strings.Join(rv, ","), strings.Join(cm, ","))
 	fmt.Println("STATS " + js)
+}
+
+var concRuns int
+
+// concurrency phase (hardening class 4; evidence, not proof): the kept programs are first run one after
+// the other, then by `workers` goroutines at the same time (own world and EVM each; the vm package's
+// stack pools, jump tables and precompile table are shared); every result must equal the sequential one.
+func concurrencyPhase(kept []spec, workers int) []string {
+	var bad []string
+	if workers <= 1 || len(kept) == 0 {
+		return bad
+	}
+	saveCur, saveObs := cur, obs
+	cur, obs = nil, nil
+	defer func() { cur, obs = saveCur, saveObs }()
+	for _, cfg := range []int{1 | 2 | 8 | 32, 63} {
+		setConfig(cfg)
+		seq := make([]string, len(kept))
+		for i, sp := range kept {
+			seq[i] = runPlain(sp)
+		}
+		par := make([]string, len(kept))
+		done := make(chan bool, workers)
+		for w := 0; w < workers; w++ {
+			go func(w int) {
+				for i := w; i < len(kept); i += workers {
+					par[i] = runPlain(kept[i])
+				}
+				done <- true
+			}(w)
+		}
+		for w := 0; w < workers; w++ {
+			<-done
+		}
+		for i := range kept {
+			concRuns++
+			if seq[i] != par[i] && len(bad) < 5 {
+				bad = append(bad, fmt.Sprintf("cfg %d code %s: sequential %q, concurrent %q", cfg, hexTok(kept[i].code), seq[i], par[i]))
+			}
+		}
+	}
+	return bad
 }
